@@ -233,6 +233,27 @@ PROPS = {
   'essential_classes': ['pool:consistent', 'pool:inconsistent', 'pool:legacy', 'history:verifies-with-different-outcomes', 'history:with-derive-operation', 'derive:extended', 'derive:root-level', 'derive:prepended', 'both-cache-configurations'],
   'assumptions': ['reference extender is stateless, so fresh-context verifications see the same server behaviour'],
  },
+ 'C10': {
+  'technique': 'model-based property testing (rapidcheck) with schema-aware construction and tree mutation against an independent reference schema evaluator, plus exhaustive position x mutation sweeps',
+  'level_text': 'Objects of all eight kinds (signature, aggregation and extension PDUs v1 / v2 request / v2 response, publications file) are constructed from the reference schema tables, '
+                'from the reference aggregator/calendar/server models and from the repository samples, then mutated at random tree positions with the 21-kind catalogue (delete, duplicate, '
+                'reorder, retag, re-flag, resize, value corruptions, unknown critical / non-critical insertions). An evaluator written from the schema wording decides accept/reject from the bytes; '
+                'the typed parser must agree in both directions. For accepted signatures the re-serialization must equal the input and every known field must equal the reference decoding; '
+                'for objects that differ from an accepted base only by unknown non-critical elements the parsed values (all kinds) and the internal verdict (signatures, element outside hashed '
+                'content) must be unchanged. Exhaustive: every tree position x every mutation kind x 3 variants on 3 canonical full instances of each kind.',
+  'level_note': 'Trusted: ref/schema.cpp (tables + evaluator), ref/tlv.cpp, ref/sigmodel.cpp decoding. DER content of certificates and the PKCS#7 signature is opaque to the reference: cases whose '
+                'verdict depends on it are counted as undecided, not asserted. Unknown elements in front of a first-position element / behind a last-position element are treated as ignored.',
+  'rule': 'inputs: (kind, origin in {schema-generated, model signature, model PDU, repository sample}, 0..3 tree mutations, configured PDU version). Non-trivial = the reference evaluator '
+          'examined at least 3 elements; distinct = distinct (kind, origin, mutation list with tree paths, reference verdict and violated rules).',
+  'quick': {'cases': 48000, 'max_size': 400, 'exhaustive': True, 'wall_s': 900},
+  'thorough': {'cases': 800000, 'max_size': 600, 'exhaustive': True, 'wall_s': 3400, 'fuzz': {'runs': 300000, 'max_len': 1200, 'jobs': 16}},
+  'essential_classes': ['agree:accept', 'agree:reject', 'kind:signature', 'kind:aggr-pdu-v1', 'kind:aggr-req-pdu-v2', 'kind:aggr-resp-pdu-v2', 'kind:ext-pdu-v1', 'kind:ext-req-pdu-v2', 'kind:ext-resp-pdu-v2', 'kind:pubfile',
+                        'fields:compared-with-model', 'metamorphic:unknown-nc-vs-base', 'metamorphic:verdict-compared', 'unknown-nc:inside-hashed-content',
+                        'rule-violated:int-not-minimal', 'rule-violated:mutually-exclusive-elements-combined', 'rule-violated:unknown-critical-element', 'rule-violated:single-valued-element-repeated',
+                        'rule-violated:mandatory-element-missing', 'rule-violated:at-least-one-group-empty', 'rule-violated:not-first', 'rule-violated:after-last-element', 'rule-violated:section-out-of-order',
+                        'rule-violated:str-not-nul-terminated', 'rule-violated:str-embedded-nul', 'rule-violated:imprint-length-mismatch', 'rule-violated:imprint-unknown-algorithm', 'rule-violated:legacy-id-length'],
+  'assumptions': ['certificate and PKCS#7 DER content is not judged by the reference (undecided cases are counted)', 'only the generated inputs are covered'],
+ },
 }
 
 # properties without a check, with the reason (kept current)
